@@ -97,6 +97,10 @@ def need_text(prog, i, nd):
         s = "m%d is done" % nd["fr"]
     elif k == "st":
         s = "m%d is %s" % (nd["fr"], nd["st"])
+    elif k == "ad":
+        who = nd["which"] if isinstance(nd["which"], str) else "m%d" % nd["which"]
+        fr = "me" if nd.get("frame") is None else "f%d" % (bases(prog)[i] + nd["frame"])
+        s = "%s in frame %s is done" % (who, fr)
     else:
         raise ValueError(k)
     return ("not " if nd.get("neg") else "") + s
@@ -121,7 +125,7 @@ def act_text(prog, i, a):
     if k == "copy":
         return "copy .v%d into .v%d" % (a["src"], a["dst"])
     if k == "done":
-        return "done me"
+        return "done " + " ".join("me" if t == "me" else "m%d" % t for t in a.get("targets", ["me"]))
     if k == "bid":
         return "bid %s %s" % (a["ctl"], " ".join(t if isinstance(t, str) else "m%d" % t for t in a["targets"]))
     raise ValueError(k)
@@ -166,9 +170,16 @@ def render(prog):
 
 # ----------------------------------------------------------------------------- driver request
 
-def need_enc(prog, i, nd):
+def need_enc(prog, i, nd, j=None):
     k = nd["k"]
     neg = "1" if nd.get("neg") else "0"
+    if k == "ad":
+        g = bases(prog)[i] + (j if nd.get("frame") is None else nd["frame"])
+        if nd["which"] == "any":
+            return [neg, "xa", g]
+        if nd["which"] == "all":
+            return [neg, "xl", g]
+        return [neg, "xn", g, nd["which"]]
     if k == "cd":
         return [neg, "cd", nd["sh"], OPS[nd["op"]], nd["v"]]
     if k == "ci":
@@ -186,10 +197,10 @@ def need_enc(prog, i, nd):
     raise ValueError(k)
 
 
-def needs_enc(prog, i, needs):
+def needs_enc(prog, i, needs, j=None):
     out = [len(needs)]
     for nd in needs:
-        out += need_enc(prog, i, nd)
+        out += need_enc(prog, i, nd, j)
     return out
 
 
@@ -206,7 +217,12 @@ def act_enc(prog, i, a):
     if k == "copy":
         return ["copy", a["src"], a["dst"]]
     if k == "done":
-        return ["done", 1, i]
+        tg = []
+        for t in a.get("targets", ["me"]):
+            x = i if t == "me" else t
+            if x not in tg:
+                tg.append(x)
+        return ["done", len(tg)] + tg
     if k == "bid":
         tg = []
         for t in a["targets"]:
@@ -237,15 +253,15 @@ def encode(prog):
                 if t == "act":
                     items += ["A", CTX1[it["ctx"]]] + act_enc(prog, i, it["act"])
                 elif t == "go":
-                    items += ["G", far_of(prog, i, j, it["far"])] + needs_enc(prog, i, it["needs"]) + [0]
+                    items += ["G", far_of(prog, i, j, it["far"])] + needs_enc(prog, i, it["needs"], j) + [0]
                 elif t == "timeout":
                     items += ["G", far_of(prog, i, j, "next")] + needs_enc(prog, i, [{"k": "el", "op": ">=", "v": it["v"]}]) + [0]
                 elif t == "repeat":
                     items += ["G", far_of(prog, i, j, "next")] + needs_enc(prog, i, [{"k": "re", "op": ">=", "n": it["n"]}]) + [0]
                 elif t == "let":
-                    items += ["L"] + needs_enc(prog, i, it["needs"])
+                    items += ["L"] + needs_enc(prog, i, it["needs"], j)
                 elif t == "aux":
-                    items += ["X", it["aux"]] + needs_enc(prog, i, it["needs"]) + [0]
+                    items += ["X", it["aux"]] + needs_enc(prog, i, it["needs"], j) + [0]
                 n += 1
             T += [n] + items
     return " ".join(str(x) for x in T)
@@ -710,3 +726,218 @@ def fill_recs(prog, rng=None):
                     f["items"].insert(0, {"t": "act", "ctx": c, "act": {"k": "rec", "tag": nxt, "ret": 0}})
                     nxt += 1
     return prog
+
+
+def gen_guards(rng):
+    """programs centred on entry guards: `let` guards at several depths on shares that only the clock framer
+    writes (.v0 = tick counter, .v1 = a flag the clock flips at chosen ticks), transitions whose targets are
+    guarded, auxiliaries (plain and conditional) whose first frames are guarded, an original auxiliary named by
+    two frames.  .v2 is free for frame actions."""
+    tagc = [0]
+
+    def guard():
+        r = rng.random()
+        if r < 0.45:
+            return {"k": "cd", "sh": 1, "op": "==", "v": rng.choice([0, 1])}
+        if r < 0.8:
+            return {"k": "cd", "sh": 0, "op": rng.choice([">=", "<"]), "v": rng.randrange(1, 8)}
+        return {"k": "cd", "sh": 0, "op": rng.choice(["==", "!="]), "v": rng.randrange(1, 8)}
+
+    def fr(over=None):
+        return {"over": over, "under": None, "items": _recs(rng, tagc, True)}
+
+    # clock: counts ticks in .v0, flips .v1 at chosen ticks
+    flips = sorted(rng.sample(range(1, 9), rng.choice([1, 2, 3])))
+    cframes = []
+    val = rng.choice([0, 1])
+    init_v1 = val
+    for n, t in enumerate(flips + [None]):
+        items = [{"t": "act", "ctx": "recur", "act": {"k": "inc", "dst": 0, "v": 1}}]
+        if n > 0:
+            val = 1 - val
+            items.append({"t": "act", "ctx": "enter", "act": {"k": "put", "dst": 1, "v": val}})
+        if t is not None:
+            items.append({"t": "go", "far": "next", "needs": [{"k": "cd", "sh": 0, "op": ">=", "v": t}]})
+        cframes.append({"over": None, "under": None, "items": items})
+    framers = [{"sched": "active", "first": None, "frames": cframes}]
+    nmain = rng.choice([1, 2, 2])
+    for _ in range(nmain):
+        framers.append(None)
+    naux_cap = 5
+
+    def new_aux(level):
+        if len(framers) >= 1 + nmain + naux_cap:
+            return None
+        k = len(framers)
+        framers.append(None)
+        n = rng.choice([1, 2, 2])
+        frames = [fr()]
+        if n == 2:
+            frames.append(fr(0 if rng.random() < 0.6 else None))
+        for f in frames:
+            if rng.random() < 0.5:
+                f["items"].append({"t": "let", "needs": [guard()]})
+        if rng.random() < 0.6:
+            frames[0]["items"].append({"t": "go", "far": "me" if n == 1 else 1,
+                                       "needs": [{"k": "re", "op": ">=", "n": rng.randrange(1, 4)}]})
+        if rng.random() < 0.5:
+            frames[-1]["items"].append({"t": "act", "ctx": rng.choice(["enter", "recur"]), "act": {"k": "done"}})
+        if level < 1 and rng.random() < 0.3:
+            a = new_aux(level + 1)
+            if a is not None:
+                frames[0]["items"].append({"t": "aux", "aux": a, "needs": [] if rng.random() < 0.6 else [guard()]})
+        for f in frames:
+            rng.shuffle(f["items"])
+        framers[k] = {"sched": "aux", "first": None, "frames": frames}
+        return k
+
+    for m in range(1, 1 + nmain):
+        depth = rng.choice([1, 2, 3])
+        frames = [fr(d - 1 if d > 0 else None) for d in range(depth)]
+        for _ in range(rng.choice([1, 2, 3])):
+            frames.append(fr(rng.choice([None] + list(range(depth)))))
+        n = len(frames)
+        shared = None
+        for j, f in enumerate(frames):
+            its = f["items"]
+            if rng.random() < 0.55:
+                its.append({"t": "let", "needs": [guard()] + ([guard()] if rng.random() < 0.2 else [])})
+            for _ in range(rng.choice([1, 1, 2, 3])):
+                far = rng.choice(["next", "me"]) if (rng.random() < 0.25 and j + 1 < n) else rng.randrange(n)
+                r = rng.random()
+                if r < 0.5:
+                    nds = [{"k": "cd", "sh": 0, "op": ">=", "v": rng.randrange(1, 8)}]
+                elif r < 0.8:
+                    nds = [{"k": "re", "op": ">=", "n": rng.randrange(0, 4)}]
+                else:
+                    nds = []
+                its.append({"t": "go", "far": far, "needs": nds})
+            if rng.random() < 0.3:
+                a = new_aux(0)
+                if a is not None:
+                    its.append({"t": "aux", "aux": a, "needs": []})
+                    if shared is None:
+                        shared = a
+            elif shared is not None and rng.random() < 0.35:
+                its.append({"t": "aux", "aux": shared, "needs": []})       # original aux reachable from two frames
+            if rng.random() < 0.25:
+                a = new_aux(0)
+                if a is not None:
+                    its.append({"t": "aux", "aux": a, "needs": [guard()]})
+            if rng.random() < 0.2:
+                its.append({"t": "act", "ctx": rng.choice(["enter", "exit", "recur"]), "act": {"k": "inc", "dst": 2, "v": 1}})
+            if rng.random() < 0.06:
+                its.append({"t": "act", "ctx": "recur", "act": {"k": "bid", "ctl": "stop", "targets": ["me"]}})
+            rng.shuffle(its)
+        framers[m] = {"sched": "active" if rng.random() < 0.85 else "inactive",
+                      "first": rng.randrange(n) if rng.random() < 0.3 else None, "frames": frames}
+    if rng.random() < 0.5 and nmain >= 1:       # the clock (re)starts a main framer at some tick
+        cframes[-1]["items"].append({"t": "act", "ctx": "enter", "act": {"k": "bid", "ctl": "start",
+                                                                          "targets": [rng.randrange(1, 1 + nmain)]}})
+    return {"ticks": rng.choice([8, 10, 12]), "period": rng.choice([8, 4, 1]),
+            "shares": [0, init_v1, 0], "framers": framers}
+
+
+def gen_auxes(rng, named_done=True):
+    """programs centred on plain auxiliaries: auxiliaries at several levels (auxiliaries of auxiliaries), several
+    per frame, rarely an original shared by two frames; `done me` / `done <aux>` verbs; transitions conditioned on
+    `any|all|<aux> in frame … is done` and `<aux> is done`; a clock framer counts ticks in .v0"""
+    tagc = [0]
+    nmain = rng.choice([1, 1, 2])
+    framers = [None] * (1 + nmain)
+    framers[0] = {"sched": "active", "first": None, "frames": [
+        {"over": None, "under": None, "items": [{"t": "act", "ctx": "recur", "act": {"k": "inc", "dst": 0, "v": 1}}]}]}
+
+    def fr(over=None):
+        return {"over": over, "under": None, "items": _recs(rng, tagc, True)}
+
+    def done_need(i_frames_auxes, j):
+        """a done-condition about the plain auxiliaries of frame j (local) of the framer under construction"""
+        auxes = i_frames_auxes.get(j, [])
+        r = rng.random()
+        if r < 0.3:
+            nd = {"k": "ad", "which": "any", "frame": None if rng.random() < 0.6 else j}
+        elif r < 0.6:
+            nd = {"k": "ad", "which": "all", "frame": None if rng.random() < 0.6 else j}
+        elif auxes and r < 0.85:
+            nd = {"k": "ad", "which": rng.choice(auxes), "frame": j if rng.random() < 0.5 else None}
+        elif auxes:
+            nd = {"k": "dn", "fr": rng.choice(auxes)}
+        else:
+            nd = {"k": "ad", "which": "any", "frame": None}
+        if rng.random() < 0.2:
+            nd["neg"] = True
+        return nd
+
+    def new_aux(level):
+        if len(framers) >= 1 + nmain + 7:
+            return None
+        k = len(framers)
+        framers.append(None)
+        n = rng.choice([1, 2, 2, 3])
+        frames = [fr()]
+        for d in range(1, n):
+            frames.append(fr(rng.choice([None, d - 1])))
+        style = rng.random()
+        for j, f in enumerate(frames):
+            if j + 1 < n and rng.random() < 0.8:
+                f["items"].append({"t": "go", "far": "next", "needs": [{"k": "re", "op": ">=", "n": rng.randrange(0, 3)}]})
+        if style < 0.75:
+            frames[rng.randrange(n) if rng.random() < 0.3 else n - 1]["items"].append(
+                {"t": "act", "ctx": rng.choice(["enter", "recur", "recur", "exit"]), "act": {"k": "done"}})
+        mine = {}
+        if level < 2 and rng.random() < 0.35:
+            a = new_aux(level + 1)
+            if a is not None:
+                j = rng.randrange(n)
+                frames[j]["items"].append({"t": "aux", "aux": a, "needs": []})
+                mine[j] = [a]
+                if rng.random() < 0.6:
+                    frames[j]["items"].append({"t": "go", "far": rng.randrange(n), "needs": [done_need(mine, j)]})
+        for f in frames:
+            rng.shuffle(f["items"])
+        framers[k] = {"sched": "aux", "first": None, "frames": frames}
+        return k
+
+    for m in range(1, 1 + nmain):
+        depth = rng.choice([1, 2, 3])
+        frames = [fr(d - 1 if d > 0 else None) for d in range(depth)]
+        for _ in range(rng.choice([1, 2, 3])):
+            frames.append(fr(rng.choice([None] + list(range(depth)))))
+        n = len(frames)
+        mine = {}
+        pool = []
+        for j, f in enumerate(frames):
+            for _ in range(rng.choice([0, 1, 1, 2])):
+                if pool and rng.random() < 0.06:
+                    a = rng.choice(pool)                   # an original auxiliary named by a second frame
+                else:
+                    a = new_aux(0)
+                if a is not None and a not in mine.get(j, []):
+                    f["items"].append({"t": "aux", "aux": a, "needs": []})
+                    mine.setdefault(j, []).append(a)
+                    pool.append(a)
+        for j, f in enumerate(frames):
+            its = f["items"]
+            for _ in range(rng.choice([1, 1, 2, 3])):
+                far = rng.choice(["next", "me"]) if (rng.random() < 0.25 and j + 1 < n) else rng.randrange(n)
+                r = rng.random()
+                if r < 0.5:
+                    nds = [done_need(mine, j)]
+                elif r < 0.75:
+                    nds = [{"k": "cd", "sh": 0, "op": ">=", "v": rng.randrange(1, 8)}]
+                else:
+                    nds = [{"k": "re", "op": ">=", "n": rng.randrange(1, 4)}]
+                if rng.random() < 0.15:
+                    nds.append(done_need(mine, j))
+                its.append({"t": "go", "far": far, "needs": nds})
+            if named_done and mine.get(j) and rng.random() < 0.25:
+                its.append({"t": "act", "ctx": rng.choice(["recur", "enter", "exit", "precur"]),
+                            "act": {"k": "done", "targets": [rng.choice(mine[j])] + (["me"] if rng.random() < 0.2 else [])}})
+            if rng.random() < 0.15:
+                its.append({"t": "let", "needs": [done_need(mine, j)]})
+            if rng.random() < 0.05:
+                its.append({"t": "act", "ctx": "recur", "act": {"k": "bid", "ctl": rng.choice(["stop", "abort"]), "targets": ["me"]}})
+            rng.shuffle(its)
+        framers[m] = {"sched": "active", "first": rng.randrange(n) if rng.random() < 0.25 else None, "frames": frames}
+    return {"ticks": rng.choice([6, 8, 10, 12]), "period": rng.choice([8, 4, 1]), "shares": [0, 0, 0], "framers": framers}
